@@ -1,0 +1,19 @@
+//go:build verif
+
+package json
+
+// Contracts for the govc verifier (/verif). Comment-only file: it contains no
+// executable code and is compiled only with the build tag `verif`.
+
+// The JSON policy decoder must not panic on any document encoding/json accepts
+// (nulls, empty arrays and missing fields in every position).
+//@ sweep C10 json_unmarshal.go
+// Outside the verified subset (stores through the result of a call, aliasing
+// conversion of a recursive pointer type): not swept.
+//@ func (Policy) UnmarshalJSON
+//@   nosafety
+//@ func (nodeJSON) UnmarshalJSON
+//@   nosafety
+//@ func (scopeJSON) ToActionNode
+//@   loop 1
+//@     invariant len(es) == len(s.Entities) && !isnil(es)
